@@ -162,6 +162,13 @@ Theorem Own_assets_genuine :
 Proof. exact assets_of_ok. Qed.
 Print Assumptions Own_assets_genuine.
 
+Theorem Own_assets_sigfree :
+  forall (e : env) (ke : keyenv) (W : wit),
+  (forall k sg, In sg W -> e_sigok e (kb ke k) sg = true -> sg = []) ->
+  forall k, a_sig (assets_of e ke W) k = None.
+Proof. exact assets_of_sigfree. Qed.
+Print Assumptions Own_assets_sigfree.
+
 Theorem Table_in_relation :
   forall (e : env) (ke : keyenv) (A : assets), assets_ok e ke A -> (forall kbs, e_sigok e kbs [] = false) ->
   forall (m : ms) (t : ty), type_of m = ROk t -> wf e ke m -> no_multi m ->
